@@ -29,7 +29,7 @@ Spec == Init /\ [][Next]_i
 Accept(ev) ==
   /\ ev.ok
   /\ CASE ev.kind = "tex"     -> /\ ev.fmt \in Formats3DS
-                                 /\ ev.w \in {8, 16, 32, 64, 128} /\ ev.h \in {8, 16, 32, 64, 128}
+                                 /\ ev.w \in TexSides /\ ev.h \in TexSides
                                  /\ Len(ev.payload) = PayloadSize(ev.fmt, ev.w, ev.h)
                                  /\ ImageOK(ev.fmt, ev.w, ev.h, ev.payload, ev.pixels)
        [] ev.kind = "rgb5a3"  -> Rgb5a3RunOK(ev.payload, ev.pixels)
